@@ -1369,14 +1369,16 @@ def block_entries():
             lambda drawn: {'name': recase(TYPES[type_name].header, drawn[1]) if drawn[1] else TYPES[type_name].header,
                            'value': canonical(drawn[0]).decode('ascii'), 'kind': 'known:' + type_name})
     known_entry = st.sampled_from(HEADER_TYPES).flatmap(known)
-    unknown_entry = st.tuples(unknown_field_names(), st.one_of(field_content(), field_content(), st.just(''))).map(
+    # a value may begin with, consist of or repeat the character that ends the name
+    colon_led = st.one_of(st.sampled_from([':', '::', ':a', ': a', 'a:', ':=']), field_content().map(lambda text: ':' + text))
+    unknown_entry = st.tuples(unknown_field_names(), st.one_of(field_content(), field_content(), colon_led, st.just(''))).map(
         lambda drawn: {'name': drawn[0], 'value': drawn[1], 'kind': 'unknown'})
     return st.one_of(known_entry, known_entry, unknown_entry)
 
 
 def corrupt_values():
     """Field values (valid field-content) that the detailed parsers are likely to refuse."""
-    return st.one_of(field_content(), st.just(''), st.sampled_from(['x', '@', '1x', '-1', '=', ';', ',', '{', '"', 'max-age', '0 0',
+    return st.one_of(field_content(), st.just(''), st.sampled_from(['x', '@', '1x', '-1', '=', ';', ',', '{', '"', 'max-age', '0 0', ':', ':x', '::',
                                                        'text', '/', '1;', 'a=b=c', '']))
 
 
